@@ -25,9 +25,11 @@ CLAIMS = {
                     'port',
 }
 GOALS = {'quick': ['same template merged twice', 'overlapping nested key',
-                   'embedded two levels deep'],
+                   'embedded two levels deep',
+                   'merge into a generated composite'],
          'thorough': ['same template merged twice', 'overlapping nested key',
-                      'embedded two levels deep']}
+                      'embedded two levels deep',
+                      'merge into a generated composite']}
 STUBS = ['composer with two pure processes (symbolic constant timesteps, '
          'symbolic delta) and three flow steps (two in one layer, one '
          'dependent); recording emitter']
@@ -215,13 +217,32 @@ def _walk(d, pre=()):
 PATHS = [(), ('x',), ('x', 'y')]
 
 
+def bystander_snap_shape(snap, later):
+    """the snapshot a freshly generated composite must have: the same keys as
+    the bystander's (object identities differ, so they are taken from
+    `later` itself where the key is a process or step)"""
+    mine = snapshot(later)
+    return {k: (mine.get(k) if k[0] in ('processes', 'steps') else v)
+            for k, v in snap.items()}
+
+
 def part_merge(ctx, cfg):
     conf = {'ts': 1, 'ts2': 2, 'd': 1}
     template = C(conf).generate()
     template_snap = snapshot(template)
-    target = Composite({})
+    # the composite merged into: an empty one, or one a composer generated
+    # (whose config has no 'state' entry); a third generated composite is a
+    # bystander that no merge may touch
+    bystander = C(conf).generate()
+    bystander_snap = snapshot(bystander)
     merged_in = []          # (composite, snapshot)
     expected = {}
+    if ctx.flag('target_generated'):
+        target = C(conf).generate()
+        expected.update(snapshot(target))
+        ctx.goal('merge into a generated composite')
+    else:
+        target = Composite({})
     n_template = 0
     steps = []
     for i in range(cfg['L']):
@@ -264,12 +285,16 @@ def part_merge(ctx, cfg):
             expected[(part, path + p)] = v
         if before & {(part, path + p) for (part, p) in add}:
             ctx.goal('overlapping nested key')
-        # every composite merged in so far is unchanged
-        for comp, snap in merged_in:
+        # every composite merged in so far, and the bystander, is unchanged
+        for comp, snap in merged_in + [(bystander, bystander_snap)]:
             ctx.claim('C16.unchanged', snapshot(comp) == snap,
                       sig='unchanged', info=lambda: dict(
                           steps=steps, before=sorted(map(str, snap)),
                           after=sorted(map(str, snapshot(comp)))))
+    later = C(conf).generate()      # a composite generated after the merges
+    ctx.claim('C16.unchanged', snapshot(later) == bystander_snap_shape(
+        bystander_snap, later), sig='generated-later', info=lambda: dict(
+            steps=steps, later=sorted(map(str, snapshot(later)))))
     got = snapshot(target)
     got = {k: v for k, v in got.items() if v not in ('{}', repr('{}'))}
     ctx.claim('C16.union', got == expected, sig='union', info=lambda: dict(
